@@ -36,6 +36,8 @@ REWRITES = {
     ],
     "internal/controller/controller.go": [
         (r"\btime\.Sleep\(", "verifhook.Sleep(", 1),
+        # no time-out exists in the controller today; one that is added is measured on the virtual clock too (seed C16e)
+        (r"\btime\.After\(", "verifhook.After(", 0),
     ],
     # the sensor monitor reads no clock today; if a change makes the smoothing depend on elapsed time, the streams
     # control that time (virtual clock) instead of the wall clock (seed C08d)
@@ -162,6 +164,51 @@ def build(pkg="harness", race=False, out=None):
         return _build(pkg, race, out)
 
 
+last_shim_notes = []
+
+
+def _patch_shims(output):
+    """A change to /repo may rename or remove an unexported identifier that an export shim forwards to; the harness must
+    still build so that the remaining streams can look for a failing input. Compile errors located in a shim file
+    (`.../zz_verif_*.go:<line>:`) are answered by replacing the body of the function at that line with a panic
+    (ops that need it then answer `panic:...`, everything else works). Returns the list of patched shims."""
+    ov_path = os.path.join(BUILD, "overlay.json")
+    ov = json.load(open(ov_path))
+    rep = ov["Replace"]
+    patched = []
+    hits = {}
+    for m in re.finditer(r"(\S+\.go):(\d+):\d+: (.*)", output):
+        hits.setdefault(m.group(1), set()).add(int(m.group(2)))
+    for rel, lines in hits.items():
+        # the compiler cites the overlay's replacement file (go/shims/*.go or an already patched copy) or the overlaid path
+        key = next((k for k, v in rep.items() if (v == rel or k.endswith(rel.lstrip("./"))) and "zz_verif_" in k), None)
+        if key is None:
+            continue
+        src = open(rep[key]).read().split("\n")
+        for ln in sorted(lines):
+            # find the `func` line at or above ln
+            i = ln - 1
+            while i >= 0 and not src[i].startswith("func "):
+                i -= 1
+            if i < 0:
+                continue
+            # end of that function: single-line `func ... { ... }` or up to the closing brace at column 0
+            j = i
+            if not src[i].rstrip().endswith("}"):
+                while j < len(src) and src[j] != "}":
+                    j += 1
+            head = src[i][:src[i].index("{") + 1] if "{" in src[i] else src[i]
+            src[i:j + 1] = [head + ' panic("verif: the identifier this export shim forwards to is gone") }']
+            patched.append(f"{rel}:{ln}")
+        out = os.path.join(BUILD, "shims_patched", os.path.basename(key))
+        _write_if_changed(out, "\n".join(src))
+        rep[key] = out
+    if patched:
+        with open(ov_path, "w") as f:
+            json.dump(ov, f, indent=1, sort_keys=True)
+    return patched
+
+
 def _build(pkg, race, out):
     broken = prepare()
     final = out or os.path.join(BUILD, "verif" + pkg + ("-race" if race else ""))
@@ -174,6 +221,17 @@ def _build(pkg, race, out):
         env["CGO_ENABLED"] = "1"
     args.append("." if pkg == "fan2go" else "./verif" + pkg)
     r = go(args, env=env)
+    shim_notes = []
+    for _ in range(4):
+        if r.returncode == 0:
+            break
+        p = _patch_shims(r.stdout)
+        if not p:
+            break
+        shim_notes += p
+        r = go(args, env=env)
+    global last_shim_notes
+    last_shim_notes = list(shim_notes)
     if r.returncode != 0:
         try:
             os.remove(out)
